@@ -230,7 +230,7 @@ Definition step_h (c : cmd) (args : list str) (s : mstate) : outcome (cres * mst
   match step_m rnd ord c args s with
   | Some o => o
   | None =>
-    match step_script c args s with          (* the four loop-free scripts, translated by hand *)
+    match step_script rnd c args s with      (* the scripts translated by hand *)
     | Some o => o
     | None => match c with
               | CArrayConcat => Done (concat_asis args s)
